@@ -1,11 +1,14 @@
 import Ymq.Drv.Util
 import Ymq.Model.Sieve
+import Ymq.Model.SieveLog
 
 /-!
 Driver ops of C13 (answers of the MODEL; the harness prints the same lines with the real code):
   svm <P> <cmd>...   cmds: new <off> <nblocks> <R1> <R2> | blk <positions> | skip <k> | rehash <R1> <R2> | dumplo
   svt / svl <nblocks> <adds> <adds2|x> <queries>
   sv_cof <P> <x> <facs> <maxlarge> <double> [<hint p,q | none>]
+  svb <d0|d1> <root> <P> <cmd>...   log accumulation / threshold model (d1 = checked profile, d0 = release):
+        new .. | skip <k> | rehash .. | blk <threshold>
   sv_fbm <P>         idx_by_log as FBase::new computes it for the primes P (replay of an `sv_fb` answer)
 -/
 namespace Ymq.Drv
@@ -80,6 +83,41 @@ partial def runAll (fb : FB) (run : Run) (toks : List String) : Option (Option R
     | some (none, _) => some none
     | some (some run, rest) => runAll fb run rest
 
+/-- `svb` commands -/
+def stepB (dbg : Bool) (root : Option Nat) (fb : FB) (run : Run) : List String → Option (Option Run × List String)
+  | "new" :: off :: nb :: a :: b :: rest => step fb run ("new" :: off :: nb :: a :: b :: rest)
+  | "rehash" :: a :: b :: rest => step fb run ("rehash" :: a :: b :: rest)
+  | "skip" :: k :: rest => do
+    let k ← parseNat k
+    let s ← run.st
+    let r := (List.range k).foldlM (fun s _ => do
+      let (s, _) ← SieveLog.sieveBlockLog dbg fb s
+      nextBlock s) s
+    match r with
+    | none => some (none, rest)
+    | some s => some (some { run with st := some s }, rest)
+  | "blk" :: thr :: rest => do
+    let thr ← parseNat thr
+    let s ← run.st
+    let r := do
+      let (s, blk) ← SieveLog.sieveBlockLog dbg fb s
+      let (res, facs) ← SieveLog.smooths dbg fb s blk thr root run.r1 run.r2
+      let head := s!"K{s.blkNo} h={hash blk} mx={blk.foldl max 0} n={res.length}"
+      let line := (res.zip facs).foldl (fun acc (r, f) => acc ++ s!" {r}:{dots (sortNat f)}") head
+      let s ← nextBlock s
+      some (s, line)
+    match r with
+    | none => some (none, rest)
+    | some (s, line) => some (some { run with st := some s, out := run.out.push line }, rest)
+  | _ => none
+
+partial def runAllB (dbg : Bool) (root : Option Nat) (fb : FB) (run : Run) (toks : List String) : Option (Option Run) :=
+  if toks.isEmpty then some (some run)
+  else match stepB dbg root fb run toks with
+    | none => none
+    | some (none, _) => some none
+    | some (some run, rest) => runAllB dbg root fb run rest
+
 def parsePairs (s : String) : Option (List (Nat × Nat)) :=
   if s = "-" then some [] else (s.splitOn ",").mapM fun x =>
     match x.splitOn ":" with
@@ -103,6 +141,13 @@ def handleSieve : Handler
   | "svm" :: ps :: cmds => do
     let fb := FB.ofPrimes (← parseNatList ps).toArray
     match ← runAll fb {} cmds with
+    | none => some "panic"
+    | some run => some ("ok | " ++ ";".intercalate run.out.toList)
+  | "svb" :: d :: root :: ps :: cmds => do
+    let dbg ← (if d = "d1" then some true else if d = "d0" then some false else none)
+    let root ← (if root = "none" then some none else (parseNat root).map some)
+    let fb := FB.ofPrimes (← parseNatList ps).toArray
+    match ← runAllB dbg root fb {} cmds with
     | none => some "panic"
     | some run => some ("ok | " ++ ";".intercalate run.out.toList)
   | ["svt", nb, a1, a2, qs] => do
